@@ -245,6 +245,11 @@ func (bi *BasmInstance) assembler2NewBondMachine() error {
 			}
 
 			if prog, err := myArch.Assembler([]byte(prog)); err == nil {
+				// In hybrid mode the assembler sizes its memory check on the larger of ROM and RAM:
+				// the ROM code has to fit the ROM
+				if len(prog.Slocs) > 1<<myArch.O {
+					return errors.New("the ROM code of " + cp.GetValue() + " does not fit the ROM of " + strconv.Itoa(1<<myArch.O) + " cells")
+				}
 				myMachine.Program = prog
 			} else {
 				return err
